@@ -28,6 +28,7 @@ from typing import TYPE_CHECKING
 from igraph import Vertex
 
 from explorerscript.ssb_converting.decompiler.write_handlers.abstract import AbstractWriteHandler, FallbackToJump
+from explorerscript.ssb_converting.ssb_special_ops import OP_JUMP
 
 if TYPE_CHECKING:
     from explorerscript.ssb_converting.ssb_decompiler import ExplorerScriptSsbDecompiler
@@ -53,10 +54,19 @@ class ForeverContinueWriteHandler(AbstractWriteHandler):
             logger.warning("While decompiling, tried to generate continue; outside loop!")
             raise FallbackToJump()
         if not self._continue_is_implicit():
-            self.decompiler.source_map_add_opcode(self.start_vertex["op"].offset)
+            if self._is_statement_for_jump():
+                self.decompiler.source_map_add_opcode(self.start_vertex["op"].offset)
             self.decompiler.write_stmnt("continue;  // may be redundant")
         return None
 
     def _continue_is_implicit(self) -> bool:
         # TODO: Not implemented, is probably not really possible, unless we do a multi-pass solution.
         return False
+
+    def _is_statement_for_jump(self) -> bool:
+        """
+        Whether this statement is written for a jump operation. If not, it was inserted for an edge of another
+        operation (a branch...), which has it's own statement and source map entry.
+        """
+        op = self.start_vertex["op"]
+        return op.maybe_root is not None and op.root.op_code.name == OP_JUMP
